@@ -1,12 +1,11 @@
 #!/bin/bash
-# verify_seed.sh <ID> — confirm a seeded change in its scratch worktree: suite green with the change,
+# verify_seed.sh <ID> [round-suffix] — confirm a seeded change in its scratch worktree: suite green with the change,
 # demo FAILs with it and PASSes without it.  Prints one summary line.
-ID="$1"; WT=/tmp/wt_$ID; SD=/tmp/seed_$ID
+ID="$1"; SFX="$2"; WT=/tmp/wt${SFX}_$ID; SD=/tmp/seed${SFX}_$ID
 cd "$WT" || exit 2
 git checkout -q -- . 2>/dev/null; git apply "$SD/patch.diff" || { echo "$ID: patch does not apply"; exit 1; }
 make -j8 >/dev/null 2>&1
 okc=$(make test 2>&1 | grep -c '^ok'); bad=$(make test 2>&1 | grep -ci 'not ok\|assertion\|aborted\|segmentation')
-if [ -f "$SD/run_demo.sh" ]; then RUN="bash $SD/run_demo.sh"; else RUN=""; fi
 build_demo() { (cd "$SD" && gcc -O1 -o demo_bin demo.c -I$WT/include/erasurecode -I$WT/include -I$WT/include/xor_codes -I$WT/include/rs_vand -L$WT/src/.libs -lerasurecode -L$WT/src/builtin/xor_codes/.libs -L$WT/src/builtin/rs_vand/.libs -ldl -lz -lpthread -Wl,-rpath,$WT/src/.libs -Wl,-rpath,$WT/src/builtin/xor_codes/.libs -Wl,-rpath,$WT/src/builtin/rs_vand/.libs -Wl,-rpath,$WT/src/builtin/null_code/.libs 2>/dev/null); }
 run_demo() { if build_demo; then (cd "$SD" && timeout 600 ./demo_bin >/dev/null 2>&1; echo $?); else echo "build-failed"; fi; }
 with=$(run_demo)
